@@ -49,6 +49,8 @@ def gen_cases(rng, tier):
         style = rng.choice(["ties", "ties", "dyadic", "ints", "float", "distinct"])
         big = k % 97 == 0
         npos, nneg = sizes(rng, big=big), sizes(rng, big=big)
+        if k % 7 == 4:      # medium sizes (NumPy switches sorting algorithm above 16 elements)
+            npos, nneg = rng.randint(9, 16), rng.randint(9, 16)
         pos = score_list(rng, npos, style) if npos <= 40 else score_list(rng, npos, "ints")
         neg = score_list(rng, nneg, style) if nneg <= 40 else score_list(rng, nneg, "ints")
         if k % 11 == 3:     # quantised unsigned scores (0 .. 255, some above 127): uint8 / uint16 arrays
@@ -183,6 +185,13 @@ def run_impl(case):
         s_fl = Scores.from_labels(lab_[order_], scores[order_], pos_label=pl_, nb_easy_pos=case["ep"], nb_easy_neg=case["en"],
                                   score_class=case["sc"], equal_class=case["ec"])
         if not np.array_equal(s_fl.cm(thr).matrix, cm.matrix):
+            defaults_ok = False
+            from_labels_bad = True
+        # ... and handed over already sorted by score (labels interleaved), with the documented is_sorted=True
+        asc_ = np.argsort(scores, kind="stable")
+        s_fs = Scores.from_labels(lab_[asc_], scores[asc_], pos_label=pl_, nb_easy_pos=case["ep"], nb_easy_neg=case["en"],
+                                  score_class=case["sc"], equal_class=case["ec"], is_sorted=True)
+        if not np.array_equal(s_fs.cm(thr).matrix, cm.matrix):
             defaults_ok = False
             from_labels_bad = True
     # objects derived from this one (bootstrap samples under every built-in configuration, swap(), the same data as a
